@@ -408,6 +408,13 @@ class Program:
                 return c, c.methods[name]
             if name in c.assigns:
                 return c, c.assigns[name]
+            prefix = f"_{c.name.lstrip('_')}__"
+            if name.startswith(prefix):          # name-mangled private member
+                alt = "__" + name[len(prefix):]
+                if alt in c.methods:
+                    return c, c.methods[alt]
+                if alt in c.assigns:
+                    return c, c.assigns[alt]
         return None, None
 
     def is_subclass(self, ci: ClassInfo, other: ClassInfo) -> bool:
